@@ -78,9 +78,12 @@ READY = {
          "copy to a served name (publication by os.replace); bookkeeping total (torn timestamp reads as 0). Interleavings/crash points themselves are "
          "reduced to these disciplines plus OS assumptions; fault injection: bounded workload." + BND,
          "portalocker/flock exclusivity, rename atomicity, extern file-system models; multi-process schedules not explored"),
- "C20": ("other", "Decided by the bounded workload only (all valid histories <= 4-5 rows against contexts_spec written from the property). The triple "
-         "loop of _extract_context over nested lists was not brought under an inductive invariant in this round." + BND,
-         "no obligations discharged (bounded only)"),
+ "C20": ("proof", "_extract_context under contract (three nested loops, inductive invariants over the nested context lists): every process that "
+         "covers a time point - started at a strictly earlier time point and not ended - is listed in that point's context, every process is listed "
+         "at its start point, and no index leaves the table. The converse (nothing else is listed), the scan that opens/closes processes, Duration "
+         "bisection, Delay shifting: bounded workload over all valid histories <= 4-5 rows against contexts_spec." + BND,
+         "data-structure invariant of the event list (indices in range) is a precondition exercised by the workload; floats as reals; "
+         "compress_strings trusted"),
 }
 
 PENDING_REASON = "not claimed"
